@@ -1,6 +1,7 @@
 import A2Verif.Lemmas.FsDosInit
 import A2Verif.Lemmas.FsDosDelete
 import A2Verif.Lemmas.FsDosPutD
+import A2Verif.Lemmas.FsDosFresh
 import A2Verif.Props.C01
 import A2Verif.Props.C03
 import A2Verif.Props.C04
@@ -11,8 +12,10 @@ import A2Verif.Props.C05
 `Model/Fs/Dos3x.lean` is a transcription of a2kit's DOS 3.x code, tied to the real code byte for byte by the
 harness (driver family `fsd`).  Here: the on-disk invariant `Inv`, the theorem that the independent reader
 (`Model/Read/Dos3x.lean`) succeeds on every image satisfying it and returns a well-formed volume (C03), and the
-per-operation refinement theorems: `lock`, `unlock`, `retype`, `rename` of the concrete model keep the invariant
-and their effect on the reading is a step the abstract specification (`stepOk`) allows.
+per-operation refinement theorems: `put` (any number of T/S lists, sparse files, short chunks), `delete`, `lock`,
+`unlock`, `retype`, `rename` of the concrete model keep the invariant and their effect on the reading is a step the
+abstract specification (`stepOk`) allows; hence every history of concrete operations is a valid trace and the history
+theorems of C01–C05 hold for the concrete model.
 
 The reading of a disk is what the harness sees: the image after the VTOC buffer has been written back
 (`Disk.flush` = `get_img()`), read by `Read.Dos3x.read` with the format-time system units `sb`.
@@ -212,12 +215,12 @@ theorem dos_delete_refines {d : Disk} {sb : List Nat} (h : DInv d sb) (name : By
     rw [hp]
     exact lift_refines' hvt hi (deleteM_refines (P := dosParams) hi hfn)
 
-/-- `put` of the concrete model refines the specification, for file images that fit one T/S list (at most 122
-chunk indices, no chunk longer than a sector): an accepted put inserts exactly one record on previously free
-sectors which reads back the stored chunks index for index; every refusal (wrong file system or chunk length, invalid
-name, empty image, name in use, not enough free sectors, catalog full, no type) leaves all files as they were and
-the volume well formed. -/
-theorem dos_put_refines {d : Disk} {sb : List Nat} (h : DInv d sb) (f : FImg) (hone : PutOneList f) :
+/-- `put` of the concrete model refines the specification, for every file image whose chunks are not longer than
+the chunk length (any number of T/S lists — the spill to a continuation sector —, holes across lists, short chunks):
+an accepted put inserts exactly one record on previously free sectors which reads back the stored chunks index for
+index; every refusal (wrong file system or chunk length, invalid name, empty image, name in use, not enough free
+sectors, catalog full, no type) leaves all files as they were and the volume well formed. -/
+theorem dos_put_refines {d : Disk} {sb : List Nat} (h : DInv d sb) (f : FImg) (hfit : ChunksFit f) :
     DInv (put d f).2 sb ∧ ∃ pre post, reading d sb = .ok pre ∧ reading (put d f).2 sb = .ok post ∧
       stepOk dosParams pre (.put (pathOf f.fullPath) (putChunks f) 0 (f.fsType.getD 0 0 % 128) 0) (isOk (put d f).1) post = true := by
   unfold put
@@ -228,7 +231,7 @@ theorem dos_put_refines {d : Disk} {sb : List Nat} (h : DInv d sb) (f : FImg) (h
         obtain ⟨v, L, hvt, hi⟩ := h
         have hp : pathOf f.fullPath = pathOfName fname := by unfold pathOf; rw [hfn]
         simp only [h1, Bool.not_true, Bool.false_eq_true, if_false, h2, ne_eq, not_true_eq_false, hv, hp]
-        exact lift_refines' hvt hi (putM_refines hi hone hfn hfl hfb)
+        exact lift_refines' hvt hi (putM_refines hi hfit hfn hfl hfb)
       · simp only [h1, Bool.not_true, Bool.false_eq_true, if_false, h2, ne_eq, not_true_eq_false, hv, Bool.not_false, if_true]
         exact refused_same h _
     · simp only [h1, Bool.not_true, Bool.false_eq_true, if_false, ne_eq, h2, not_false_eq_true, if_true]
@@ -319,13 +322,14 @@ theorem meta_step_refines (op : Op) (hm : op.isMeta = true) : StepRefines op := 
   | unlock name => exact of_readings (dos_unlock_refines h name)
   | retype name ty => exact of_readings (dos_retype_refines h name ty)
 
-/-- the scope of the proved refinement: `put` of a file image that fits one T/S list; no condition on the others -/
+/-- the only condition on the arguments: a file image handed to `put` has no chunk longer than its chunk length
+(`ChunksFit`; a2kit truncates longer chunks silently, so the condition cannot be dropped — `design/FsDos.md` §6) -/
 def Op.ArgsOk : Op → Prop
-  | .put f => PutOneList f
+  | .put f => ChunksFit f
   | _ => True
 
-/-- **Refinement, one step**: every operation of the concrete model (within `ArgsOk`) keeps the invariant and is a
-step the abstract specification allows -/
+/-- **Refinement, one step**: every operation of the concrete model keeps the invariant and is a step the abstract
+specification allows -/
 theorem step_refines (op : Op) (ha : op.ArgsOk) : StepRefines op := by
   intro d sb h
   cases op with
@@ -469,13 +473,22 @@ theorem dos_get_returns_last_put_partial {sb : List Nat} {d : Disk} (h : DInv d 
 
 /-! ## the history-level theorems, unconditional within `ArgsOk`
 
-Histories of `put` (files that fit one T/S list), `delete`, `rename`, `lock`, `unlock`, `retype`, started from any
-disk satisfying the invariant (e.g. a freshly initialised one, `dos_init_establishes_inv`). -/
+Histories of `put` (any size: one or many T/S lists, sparse, short chunks), `delete`, `rename`, `lock`, `unlock`,
+`retype`, started from any disk satisfying the invariant (e.g. a freshly initialised one, `dos_init_establishes_inv`). -/
 
 theorem full_history_refines {sb : List Nat} (ops : List Op) {d : Disk} (h : DInv d sb) (ha : ∀ op ∈ ops, op.ArgsOk) :
     validFrom dosParams (volD d sb) (trace sb d ops) ∧ DInv (finalDisk d ops) sb ∧
     finalVol (volD d sb) (trace sb d ops) = volD (finalDisk d ops) sb :=
   history_refines ops h (fun op ho => step_refines op (ha op ho))
+
+/-- **Refinement, histories, without a per-step hypothesis** (C01–C05 for the concrete DOS model): every history of
+`put` (any number of T/S lists, sparse, short chunks; no chunk longer than the chunk length), `delete`, `rename`,
+`lock`, `unlock`, `retype` from a disk satisfying the invariant is a valid trace of the abstract specification; the
+invariant holds at the end and the final reading is the reading of the final disk. -/
+theorem dos_history_refines {sb : List Nat} (ops : List Op) {d : Disk} (h : DInv d sb) (ha : ∀ op ∈ ops, op.ArgsOk) :
+    validFrom dosParams (volD d sb) (trace sb d ops) ∧ DInv (finalDisk d ops) sb ∧
+    finalVol (volD d sb) (trace sb d ops) = volD (finalDisk d ops) sb :=
+  full_history_refines ops h ha
 
 /-- C03 for the concrete DOS model: the disk after **every** step of every history, successful or refused, is read
 by the independent reader as a well-formed volume -/
@@ -499,26 +512,26 @@ theorem dos_listing_is_history_fold {sb : List Nat} {d : Disk} (h : DInv d sb) {
     (volD (finalDisk d ops) sb).paths.Nodup :=
   dos_listing_is_history_fold_partial h (fun op ho => step_refines op (ha op ho)) q
 
-/-- C01 for the concrete DOS model: after an accepted `put` of a file that fits one T/S list, and any further
+/-- C01 for the concrete DOS model: after an accepted `put` (any number of T/S lists), and any further
 history that does not name the file, the file the reader finds holds the stored chunks index for index, each
 beginning with the stored bytes, and the stored type -/
-theorem dos_get_returns_last_put {sb : List Nat} {d : Disk} (h : DInv d sb) {f : FImg} (hone : PutOneList f)
+theorem dos_get_returns_last_put {sb : List Nat} {d : Disk} (h : DInv d sb) {f : FImg} (hone : ChunksFit f)
     (hok : ((Op.put f).run d).1 = true) {ops : List Op} (ha : ∀ op ∈ ops, op.ArgsOk)
     (hq : ∀ op ∈ ops, pathOf f.fullPath ∉ op.abs.targets) :
     ∃ g, (volD (finalDisk ((Op.put f).run d).2 ops) sb).lookup (pathOf f.fullPath) = some g ∧
       chunksMatch (putChunks f) g.chunks = true ∧ g.ftype = f.fsType.getD 0 0 % 128 ∧ g.isDir = false :=
   dos_get_returns_last_put_partial h (step_refines (.put f) hone) hok (fun op ho => step_refines op (ha op ho)) hq
 
-/-- C04, acceptance clause (`dos_fits_is_accepted`, for files that fit one T/S list): a DOS file image with the
-right chunk length, at least one chunk, a type, a valid name not yet listed, for which the catalog has a free entry
-and `chunks + 1 = data + ⌈end/122⌉` sectors are free, **is accepted** — `put` returns `Ok(chunks + 1)`.  a2kit
-answers DISK FULL when the catalog is full, hence the slot hypothesis. -/
+/-- C04, acceptance clause (`dos_fits_is_accepted`): a DOS file image with the right chunk length, at least one chunk,
+a type, a valid name not yet listed, for which the catalog has a free entry and `sectorsNeeded f` = data sectors +
+`⌈end/122⌉` T/S list sectors are free, **is accepted** — `put` returns `Ok(sectorsNeeded f)`.  a2kit answers
+DISK FULL when the catalog is full, hence the slot hypothesis. -/
 theorem dos_fits_is_accepted {d : Disk} {sb : List Nat} {v : Bytes} {L : Lay} (hv : d.vtoc = some v)
-    (hi : WInv { c := d.c, raw := d.raw, v := v } sb L) {f : FImg} (hone : PutOneList f)
+    (hi : WInv { c := d.c, raw := d.raw, v := v } sb L) {f : FImg} (hone : ChunksFit f)
     (hfs : f.fsOk = true) (hcl : f.chunkLen = 256) (hname : isNameValid f.fullPath = true) (hch : f.chunks.length ≠ 0)
     (hty : f.fsType ≠ []) (hfresh : pathOf f.fullPath ∉ (volD d sb).paths)
-    (hslot : (slotIn (W.mk d.c d.raw v).img d.c L.cat).isSome = true) (hspace : f.chunks.length + 1 ≤ nfree v d.c) :
-    (put d f).1 = .ok (f.chunks.length + 1) := by
+    (hslot : (slotIn (W.mk d.c d.raw v).img d.c L.cat).isSome = true) (hspace : sectorsNeeded f ≤ nfree v d.c) :
+    (put d f).1 = .ok (sectorsNeeded f) := by
   have hr := reading_toDisk hi
   rw [toDisk_eq hv] at hr
   have hvd : volD d sb = volOf (W.mk d.c d.raw v).img d.c sb L := by unfold volD; rw [hr]
@@ -527,6 +540,27 @@ theorem dos_fits_is_accepted {d : Disk} {sb : List Nat} {v : Bytes} {L : Lay} (h
   simp only [hfs, Bool.not_true, Bool.false_eq_true, if_false, hcl, ne_eq, not_true_eq_false, hname]
   rw [run_eq hv]
   exact writeFile_accepts hi hone hname hch hty hfresh hslot hspace
+
+/-- non-vacuity of `dos_fits_is_accepted` and of the spill branch of `dos_put_refines`: on a freshly initialised
+DOS 3.3 volume (528 free sectors, empty catalog) the sparse file image `exB` (chunks 0 and 123, i.e. **two** T/S
+lists) meets every hypothesis, so `put` answers `Ok(4)` = 2 data sectors + 2 T/S lists -/
+example : (put fresh16 exB).1 = .ok 4 := by
+  have hi := fresh16_winv
+  have hnf : (volD fresh16 (initSys 16)).paths = [] := by
+    have hr := reading_toDisk hi
+    rw [toDisk_eq fresh16_vtoc] at hr
+    unfold volD; rw [hr]
+    exact paths_of_no_tsls rfl
+  have := dos_fits_is_accepted (sb := initSys 16) (L := initLay 16) fresh16_vtoc hi exB_fit rfl rfl (by decide) (by decide) (by decide)
+    (by rw [hnf]; exact List.not_mem_nil) (by rw [fresh16_c]; exact fresh16_slot) (by rw [fresh16_c, fresh16_free, exB_needs.1]; decide)
+  rw [exB_needs.1] at this
+  exact this
+
+/-- … and the disk after that put satisfies the invariant again and reads back the two chunks at indices 0 and 123 -/
+example : DInv (put fresh16 exB).2 (initSys 16) ∧ ∃ pre post, reading fresh16 (initSys 16) = .ok pre ∧
+    reading (put fresh16 exB).2 (initSys 16) = .ok post ∧
+    stepOk dosParams pre (.put (pathOf exB.fullPath) (putChunks exB) 0 (exB.fsType.getD 0 0 % 128) 0) (isOk (put fresh16 exB).1) post = true :=
+  dos_put_refines ⟨_, _, fresh16_vtoc, fresh16_winv⟩ exB exB_fit
 
 /-- C04, the reported free count: `stat().free_blocks` of the concrete model is the number of units the independent
 reader finds marked free in the VTOC bitmap of the flushed image -/
@@ -547,9 +581,7 @@ theorem dos_stat_free_is_reading {d : Disk} {sb : List Nat} (h : DInv d sb) : (s
 
 def exA : FImg := { fullPath := [72, 105], fsType := [4], chunks := [(0, [7, 7, 7, 7]), (2, [1, 2, 3])] }
 
-theorem exA_one : PutOneList exA := by
-  constructor
-  · decide
+theorem exA_one : ChunksFit exA := by
   · intro k d hd
     have : (k = 0 ∧ d = [7, 7, 7, 7]) ∨ (k = 2 ∧ d = [1, 2, 3]) := by
       unfold exA at hd
